@@ -226,7 +226,7 @@ def run(prog: Program, res: Result, tier: str) -> None:
                 minus, other = (ie.body.value, ie.orelse.value) if neg_first else (ie.orelse.value, ie.body.value) if pos_first else (None, None)
                 nxt = vals[i_ + 1]
                 if minus == "-" and other in ("+", "") and isinstance(nxt, ast.FormattedValue) and \
-                        canon(nxt.value) == canon("int(divmod(abs(src_dej), 10000)[0])"):
+                        canon(nxt.value) == canon("int(abs(src_dej) // 10000)"):
                     str_sign_ok = True
     if str_sign_ok:
         res.ok("R4", pr, pr.node, "the sign is written as a '-'/'+' prefix of the degrees field, independent of their value", key=key, construct="sign")
@@ -266,15 +266,16 @@ def run(prog: Program, res: Result, tier: str) -> None:
     okd = len(rets_pr) == 1 and rets_pr[0].startswith("SkyCoord(f") and rets_pr[0].endswith(", unit=(units.hourangle, units.deg))")
     if okd:
         pos_ = -1
-        for piece in ("{int(divmod(src_raj, 10000)[0])}", "{int(divmod(divmod(src_raj, 10000)[1], 100)[0])}", "{divmod(divmod(src_raj, 10000)[1], 100)[1]}",
-                      "{int(divmod(abs(src_dej), 10000)[0])}", "{int(divmod(divmod(abs(src_dej), 10000)[1], 100)[0])}",
-                      "{divmod(divmod(abs(src_dej), 10000)[1], 100)[1]}"):
+        for piece in ("{int(FloorDiv(src_raj, 10000))}", "{int(FloorDiv(Mod(src_raj, 10000), 100))}", "{Mod(Mod(src_raj, 10000), 100)}",
+                      "{int(FloorDiv(abs(src_dej), 10000))}", "{int(FloorDiv(Mod(abs(src_dej), 10000), 100))}",
+                      "{Mod(Mod(abs(src_dej), 10000), 100)}"):
             nxt = rets_pr[0].find(piece, pos_ + 1)
             if nxt < 0:
                 okd = False
                 break
             pos_ = nxt
-        okd = okd and rets_pr[0].count("divmod(") == 10
+        # six numeric fields and the sign field, nothing else
+        okd = okd and rets_pr[0].count("{") == 7
     (res.ok if okd else res.bad)("R4", pr, pr.node, "DDMMSS.S / HHMMSS.S are split with divmod by 10000 and 100 on the magnitude" if okd else
                                  "parse_radec no longer splits the packed sexagesimal floats by 10000 / 100", construct="parse_radec", key="parse_radec:split")
 
